@@ -315,6 +315,13 @@ func c10Check(d c10Desc) func(x *vsched.Exec) (string, string) {
 		if x.HitHorizon {
 			return "", ""
 		}
+		if len(x.Races) > 0 {
+			// unordered conflicting accesses to the service's own state from two connections' goroutines: for a map
+			// that is an abort of the whole process ("concurrent map read and map write"), for anything else
+			// one connection's traffic reaching into another's
+			r := x.Races[0]
+			return fmt.Sprintf("client traffic makes two connection goroutines touch %s without ordering (%s / %s)", r.Field, r.First, r.Second), "symptom=connections-share-unsynchronised-state " + r.Key()
+		}
 		w := worldOf(x)
 		st := w.LC.(*c10State)
 		// victim connection
